@@ -1,3 +1,4 @@
 From Coq Require Import ExtrOcamlBasic ExtrOcamlString.
-From FoVerif Require Import Front.Term.
-Extraction "x_c16.ml" scan_token_at tokens parse_sinterp reinterpret_escape keyword_names.
+From FoVerif Require Import Front.Term Driver.FileDriver.
+Extraction "x_c16.ml" scan_token_at tokens parse_sinterp reinterpret_escape keyword_names
+  drive final_content fo_dest fo_is_fo.
